@@ -199,7 +199,7 @@ func init() {
 			return []*engine.Scenario{
 				c02LastAsset(tier),
 				c02Scenario("c02-unbonding3u", 3*U, tier, []int{3, 1, 1, 3, 0}, 6),
-				c02Scenario("c02-unbonding1u", 1*U, tier, []int{3, 1, 1, 3, 0}, 6),
+				c02Scenario("c02-unbonding1u", 1*U, tier, []int{2, 1, 1, 3, 0}, 5),
 			}
 		},
 		Assumptions: []string{
